@@ -1,6 +1,7 @@
 import Mathlib.Algebra.Order.Field.Rat
 import PyPhysim.Proofs.C12Optimal
 import PyPhysim.Proofs.C12Exact
+import PyPhysim.Proofs.C12Gen
 
 /-!
 # C12 — water-filling returns the capacity-optimal power allocation
@@ -474,6 +475,63 @@ example :
   have vB : (doWFWith [((1/10 : ℚ), 1), (1/2, 2), (1, 0)] 3 1 (1/2) 2).toOption
       = some ([5/8, 0, 3/8], 7/8) := by decide +kernel
   simp only [runOpsRat, runOps, List.map_cons, List.map_nil, hA, hB, vA, vB]
+
+/-! ### tie by regeneration
+
+`Generated/C12WaterFilling.lean` is re-emitted from the current AST of `waterfilling.py: doWF`
+on every run (`harness/gen/c12.py`): the sort direction, the initial number of removed
+channels, the recomputed `minMu` / `Ps` and the loop test as a function of the loop counter,
+the remainder split, the scatter back to the original order and the returned level, in the
+source's own terms (descending view, Python index arithmetic).  The theorems below say that
+this text, assembled by the fixed skeleton `doWFGen`, IS the hand model the clauses above are
+proved about — for every input, including the ones on which the code raises. -/
+
+omit [IsStrictOrderedRing α] in
+/-- The regenerated `doWF` equals the hand model, for every `argsort` result and all
+    arguments (any field, any number of channels, errors included). -/
+theorem generated_wf_matches_model (asc : List (Chan α)) (P N Es : α) :
+    Generated.C12WaterFilling.doWFGen asc asc.length P N Es = doWFWith asc asc.length P N Es :=
+  doWFGen_eq_doWFWith asc P N Es
+
+omit [IsStrictOrderedRing α] in
+/-- … in the form the clauses use: `n = vtChannels.size` and `asc` any sort result satisfying
+    the contract of `np.argsort`. -/
+theorem generated_wf_matches_model_contract (g : List α) (asc : List (Chan α)) (P N Es : α)
+    (hc : SortContract g asc) :
+    Generated.C12WaterFilling.doWFGen asc g.length P N Es = doWFWith asc g.length P N Es := by
+  have hl : asc.length = g.length := by rw [hc.perm.length_eq, List.length_zipIdx]
+  rw [← hl]
+  exact doWFGen_eq_doWFWith asc P N Es
+
+/-- … and for the function the compiled driver runs in the correspondence check. -/
+theorem generated_wf_matches_doWF (g : List α) (P N Es : α) :
+    Generated.C12WaterFilling.doWFGen (argsortAsc g) g.length P N Es = doWF g P N Es :=
+  generated_wf_matches_model_contract g (argsortAsc g) P N Es (argsortAsc_contract g)
+
+omit [IsStrictOrderedRing α] in
+/-- The fuel `n + 1` of the regenerated loop suffices and the index expressions stay inside
+    the domain on which `a[np.arange(0, k)]` and `a[:k]` agree: the regenerated function
+    returns a value or `IndexError`, never `Fuel` / `RuntimeError`. -/
+theorem generated_wf_fuel_suffices (asc : List (Chan α)) (P N Es : α) :
+    (∃ v, Generated.C12WaterFilling.doWFGen asc asc.length P N Es = .ok v) ∨
+      Generated.C12WaterFilling.doWFGen asc asc.length P N Es = .error .IndexError := by
+  rw [doWFGen_eq_doWFWith]
+  unfold doWFWith
+  split
+  · exact Or.inr rfl
+  · split
+    · exact Or.inr rfl
+    · dsimp only
+      split
+      · exact Or.inl ⟨_, rfl⟩
+      · exact Or.inr rfl
+
+/-- non-vacuity: the regenerated text evaluated by the kernel on the witness input
+    (one channel switched off, `Es ≠ 1`) gives the value of the model (`wf_witness_value`). -/
+example :
+    (Generated.C12WaterFilling.doWFGen [((1/10 : Rat), 2), (1/2, 1), (1, 0)] 3 (1 : Rat) (1/2) 2).toOption
+      = some ([5/8, 3/8, 0], 7/8) := by
+  decide +kernel
 
 /-- The model's own sort (the one the compiled driver runs) is an admissible `argsort`
     result, so every theorem above applies to `doWF g P N Es`. -/
